@@ -99,6 +99,48 @@ pub fn check_parse(word: u16, id: u16) -> Vec<Finding> {
     out
 }
 
+/// into_reply on a parsed header: the reply carries the query's id and OPCODE (RFC 1035 4.1.1:
+/// "set by the originator of a query and copied into the response") and has the QR bit set, in
+/// the packet's accessors and in the bits both serialisers write.
+pub fn check_into_reply(word: u16, id: u16) -> Vec<Finding> {
+    let case = json!({"kind": "into-reply", "word": word, "id": id});
+    let h = header(id, word & !F_Z, [0; 4]);
+    let r = guarded(|| -> Result<Vec<(String, String)>, String> {
+        let mut bad = Vec::new();
+        let p = Packet::parse(&h).map_err(|e| format!("{:?}", e))?;
+        let before = observe(&p);
+        let reply = p.into_reply();
+        let after = observe(&reply);
+        if after.id != before.id {
+            bad.push(("into-reply|id".to_string(), format!("id {} became {}", before.id, after.id)));
+        }
+        if after.opcode != before.opcode {
+            bad.push(("into-reply|opcode".to_string(), format!("word {:#06x}: opcode {} became {}", word, before.opcode, after.opcode)));
+        }
+        if after.flags & F_QR == 0 {
+            bad.push(("into-reply|qr".to_string(), "the reply does not have the response bit".to_string()));
+        }
+        for compressed in [false, true] {
+            let bytes = if compressed { reply.build_bytes_vec_compressed() } else { reply.build_bytes_vec() }.map_err(|e| format!("{:?}", e))?;
+            if bytes.len() < 12 {
+                bad.push(("into-reply|short".to_string(), "reply shorter than a header".to_string()));
+                continue;
+            }
+            let w = u16::from_be_bytes([bytes[2], bytes[3]]);
+            let written_op = ((w >> 11) & 0xf) as u8;
+            if bytes[..2] != h[..2] || w & F_QR == 0 || !op_ok(before.opcode, written_op) || (before.opcode != OPCODE_RESERVED && written_op != ((word >> 11) & 0xf) as u8) {
+                bad.push(("into-reply|written-bits".to_string(), format!("query word {:#06x} id {:#06x}: reply written with id {:02x}{:02x} and flags word {:#06x}", word, id, bytes[0], bytes[1], w)));
+            }
+        }
+        Ok(bad)
+    });
+    match r {
+        Err(pn) => vec![finding(format!("C08|into-reply|{}", pn.sig()), format!("{:?}", pn), case)],
+        Ok(Err(e)) => vec![finding("C08|into-reply|error", e, case)],
+        Ok(Ok(bad)) => bad.into_iter().map(|(t, d)| finding(format!("C08|{}", t), d, case.clone())).collect(),
+    }
+}
+
 /// A header announcing `counts` entries followed by exactly those entries (cut 0), or by the
 /// questions only (1), by all but the last byte (2), by the questions and one record (3): whenever
 /// the parser accepts, the packet's four counts and the peeks are the header's counts.
@@ -858,6 +900,23 @@ pub fn run(ctx: &Ctx) {
         ctx.space("counts with EDNS: additional sections of <= 4 entries over {ordinary record, hand-placed OPT record, hand-placed OPT with an option} x packet OPT set / unset x 0..=1 answers; both serialisers, a writer, and again after a parse: the header counts are the numbers of entries that follow", n, "complete");
     }
     {
+        // into_reply on every flags word (reserved bit clear)
+        let words: Vec<u16> = (0..=65535u16).filter(|w| w & F_Z == 0).collect();
+        let shards: Vec<&[u16]> = words.chunks(1024).collect();
+        par_shards(ctx, &shards, |ws, t: &mut Tally| {
+            for &w in ws.iter() {
+                t.evals += 1;
+                t.nontrivial += 1;
+                let f = check_into_reply(w, [0u16, 0x1234, 0xffff][(w % 3) as usize]);
+                t.outcome("build");
+                if !f.is_empty() {
+                    ctx.violations(f);
+                }
+            }
+        });
+        ctx.space("into_reply on every flags word with the reserved bit clear: the reply keeps id and OPCODE and has QR set, in the accessors and in the bytes both serialisers write", words.len() as u64, "complete");
+    }
+    {
         // the four counts at the last values a 16-bit field can hold, and one past them
         let cases: Vec<(&'static str, usize)> = super::c04::ceiling_cases().into_iter().filter(|(k, _)| !k.ends_with("rdata")).collect();
         par_shards(ctx, &cases, |(kind, n), t: &mut Tally| {
@@ -906,6 +965,7 @@ pub fn replay(case: &Value) -> Vec<Finding> {
         ),
         "algebra" => check_algebra(g("a") as u16, g("b") as u16, g("opcode") as u8, g("rcode") as u16, Some(&subs)),
         "ceiling" => super::c04::check_ceiling(case["what"].as_str().unwrap_or(""), case["n"].as_u64().unwrap_or(0) as usize).into_iter().map(|f| Finding { sig: f.sig.replacen("C04|", "C08|", 1), ..f }).collect(),
+        "into-reply" => check_into_reply(g("word") as u16, g("id") as u16),
         "build-edns" => {
             let pat: Vec<u8> = case["pattern"].as_array().map(|a| a.iter().map(|x| x.as_u64().unwrap_or(0) as u8).collect()).unwrap_or_default();
             check_build_edns(&pat, case["with_opt"].as_bool().unwrap_or(false), case["answers"].as_u64().unwrap_or(0) as usize)
